@@ -206,6 +206,13 @@ func (rt *simRoundTripper) RoundTrip(req *http.Request) (*http.Response, error) 
 	if i == 0 {
 		resp := rv.Interface().(*http.Response)
 		resp.Request = req
+		if resp.StatusCode == http.StatusRequestEntityTooLarge && env.rc.Prop == "C12" && env.rc.Tape.Intn("cut413", 3) == 1 {
+			// the status line and headers of the 413 arrived; the connection dies inside its (irrelevant) body.
+			// What the caller has to hear is still that the response was too large.
+			env.rc.Fault("http-413-whose-body-is-cut-short")
+			rb, _ := io.ReadAll(resp.Body)
+			resp.Body = io.NopCloser(io.MultiReader(bytes.NewReader(rb[:len(rb)/2]), failingReader{}))
+		}
 		if f, err := DecodeFrame(decodeB64Frame(body)); err == nil && env.rc.Prop == "C03" {
 			if p := env.plans[f.Headers["tag"]]; p != nil && !p.connLost && env.rc.Tape.Intn("httplost", 8) == 1 {
 				// the server has processed the request; the connection goes away before a byte of the response
@@ -245,6 +252,14 @@ func (env *e2eEnv) newAdapterConn() *SimStream {
 	cst.OnClose = func(int) { sst.PeerEnd(nil) }
 	sst.OnClose = func(int) { cst.PeerEnd(nil) }
 	cst.OnOpen = func(int) {
+		if sst.IsOpen() {
+			// the client connects again: a new connection on the server side too. (FSimpleServer does not close a
+			// client transport whose connection ended, so the old one may still count as open here.)
+			oc := sst.OnClose
+			sst.OnClose = nil
+			sst.Close()
+			sst.OnClose = oc
+		}
 		sst.Open()
 		simrt.Send(env.lst.site, env.lst.acceptC, thrift.TTransport(sst))
 	}
